@@ -132,6 +132,12 @@ func (d *decoder) varint() uint64 {
 		return 0
 	}
 	v, n := binary.Uvarint(d.buf)
+	if n <= 0 {
+		// n == 0 means the buffer is too short, n < 0 that the value overflows 64
+		// bits. Either way the input is not something we encoded.
+		d.err = io.ErrShortBuffer
+		return 0
+	}
 	d.buf = d.buf[n:]
 	return v
 }
